@@ -505,6 +505,86 @@ def w4b(rep, f_foam):
                       "(negative-defined=%s magnitude=%s negate-applied=%s)" % (neg_def, num_def, neg_apply))
 
 
+def w7(rep, f_foam):
+    """The compact (one byte per index) form is chosen only after every index field of the node has been examined."""
+    rec = f_foam.records.get("foam_info")
+    fields = [x[0] for x in rec["f"]]
+    argf = {}
+    for r in common.table_rows(f_foam.var("foamInfoTable")):
+        g = dict(zip(fields, r["c"]))
+        a = common.string_value(g["argf"])
+        if a:
+            argf[common.enum_name(g["tag"])] = a
+    fn = f_foam.func("foamTagFormat")
+    sws = [x for x in walk(fn["body"]) if x["k"] == "SwitchStmt"]
+    if len(sws) != 1:
+        raise AnalysisBroken("foamTagFormat: expected one switch over the index-carrying tags")
+    groups = common.switch_cases(sws[0])
+    n = 0
+    for g in groups:
+        tags = [l[0] for l in g["labels"] if l[0] and l[0].startswith("FOAM_")]
+        if not tags:
+            continue
+        xs = {}
+        for st in g["stmts"]:
+            for y in walk(st):
+                if y["k"] == "BinaryOperator" and y["op"] == "=" and strip(y["c"][0]) is not None and strip(y["c"][0]).get("n") in ("x1", "x2"):
+                    xs[strip(y["c"][0])["n"]] = common.const_value(y["c"][1])
+        if set(xs) != {"x1", "x2"} or None in xs.values():
+            raise AnalysisBroken("foamTagFormat: case %s does not assign constant x1 and x2" % tags)
+        examined = {0, xs["x1"]} | ({xs["x2"]} if xs["x2"] >= 0 else set())
+        for t in tags:
+            n += 1
+            a = argf.get(t)
+            if a is None:
+                raise AnalysisBroken("foamInfoTable has no row for %s" % t)
+            want = {i for i, ch in enumerate(a) if ch == "i"}
+            key = "tagformat:fields:%s" % t
+            if examined == want:
+                rep.ok("W7", key, sample={"tag": t, "argf": a, "index_fields": sorted(want)} if n == 1 else None)
+            else:
+                rep.violation("W7", key, "foam.c:%d (foamTagFormat case %s)" % (g["line"], t),
+                              "%s has index fields at positions %s (argf \"%s\") but the choice between one-byte and full-width indexes "
+                              "looks at positions %s: an index above 255 in an unexamined field is stored modulo 256" % (
+                                  t, sorted(want), a, sorted(examined)))
+    rep.floor("index-carrying tags in foamTagFormat", n, 6)
+    # the three examined values are argv[0], argv[x1], argv[x2]
+    got = {}
+    for y in walk(fn["body"]):
+        if y["k"] == "BinaryOperator" and y["op"] == "=":
+            l = strip(y["c"][0])
+            if l is not None and l["k"] == "ArraySubscriptExpr" and strip(l["c"][0]).get("n") == "ix":
+                k = common.const_value(l["c"][1])
+                idxs = []
+                for z in walk(y["c"][1]):
+                    if z["k"] == "ArraySubscriptExpr" and z is not l:
+                        zi = strip(z["c"][1])
+                        idxs.append(zi.get("n") if zi is not None and zi["k"] == "DeclRefExpr" else common.const_value(zi))
+                got[k] = idxs
+    want = {0: [0], 1: ["x1"], 2: ["x2"]}
+    if got == want:
+        rep.ok("W7", "tagformat:reads", sample={"ix": got})
+    else:
+        rep.violation("W7", "tagformat:reads", "foam.c:%d (foamTagFormat)" % fn["l"],
+                      "the examined values must be argv[0], argv[x1], argv[x2]; found %s" % got)
+    # every examined value is compared with MAX_BYTE in a loop over all three
+    loops = [x for x in walk(fn["body"]) if x["k"] == "ForStmt" and any(
+        z["k"] == "ArraySubscriptExpr" and strip(z["c"][0]).get("n") == "ix" for z in walk(x["c"][3]))]
+    okloop = False
+    for lp in loops:
+        c = strip(lp["c"][1])
+        if c is not None and c["k"] == "BinaryOperator" and c["op"] == "<" and common.const_value(c["c"][1]) == 3:
+            for z in walk(lp["c"][3]):
+                if z["k"] == "BinaryOperator" and z["op"] == ">" and (strip(z["c"][1]) or {}).get("mac") == "MAX_BYTE" \
+                        or z["k"] == "BinaryOperator" and z["op"] == ">" and common.const_value(z["c"][1]) == 255:
+                    okloop = True
+    if okloop:
+        rep.ok("W7", "tagformat:threshold")
+    else:
+        rep.violation("W7", "tagformat:threshold", "foam.c:%d (foamTagFormat)" % fn["l"],
+                      "the loop over the three examined values no longer compares each with MAX_BYTE (255)")
+
+
 WALKERS = ["foamEqual", "foamHash", "foamCopy", "foamFree", "foamToSExpr", "foamFrSExpr", "foamAuditAll", "foamCopyNode"]
 
 
@@ -889,8 +969,11 @@ def run(tier, only=None):
     w4(rep, f_foam, f_lib)
     w4b(rep, f_foam)
     w5(rep, f_foam, alphabet)
+    w7(rep, f_foam)
     f_sefo = common.extract("sefo.c", all_trees=True)
     w6(rep, f_sefo, widths)
-    rep.assumptions += ["bufPutByte/bufGetByte move one byte (they are macros over bufAdd1/bufGet1)",
+    rep.assumptions += ["W7: for Lex/RElt/RRElt/EElt/IRElt/TRElt nodes the letter i of argf marks exactly the fields written with the "
+                        "format-dependent width",
+                        "bufPutByte/bufGetByte move one byte (they are macros over bufAdd1/bufGet1)",
                         "the last integer read/written in a case is the length used by the following bytes/loop event"]
     return rep
